@@ -329,8 +329,28 @@ def accept_implies_positive(ctx, rule='fresh-direction-has-positive-norm'):
                 problems.append('an accepting exit is unconditional')
                 continue
             c = sym(fn, g['cond'], inline=False)
-            ok = c[0] == '<' and c[1][0] == 'L' and c[2][0] == '*' and ('P', fnorm) in c[2][1:] and \
-                any(isinstance(z, tuple) and z[0] == 'F' and z[1] in POSITIVE_CONSTANTS for z in c[2][1:])
+            conj = [c]
+            while any(y_[0] == '&&' for y_ in conj):
+                conj = [z_ for y_ in conj for z_ in (y_[1:] if y_[0] == '&&' else [y_])]
+            is_orth = lambda t_: t_[0] == '<' and t_[1][0] == 'L' and t_[2][0] == '*' and ('P', fnorm) in t_[2][1:] and \
+                any(isinstance(z, tuple) and z[0] == 'F' and z[1] in POSITIVE_CONSTANTS for z in t_[2][1:])
+            is_orth_weak = lambda t_: t_[0] == '<=' and is_orth(('<',) + tuple(t_[1:]))
+            c = ([t_ for t_ in conj if is_orth(t_) or is_orth_weak(t_)] or [c])[0]
+            ok = is_orth(c)
+            weak = is_orth_weak(c)
+            # the candidate must also be more than a rounding residue of what it was before the projection: a local that holds
+            # the norm of the candidate, declared before the first projection, appears on the small side of a strict comparison
+            # with the accepted norm
+            pre = [fn.locals[d['var']]['name'] for x in fn.walk(outer['body']) if x['k'] == 'DeclStmt' for d in x['decls']
+                   if 'init' in d and show(sym(fn, d['init'], inline=False)).startswith('norm(') and
+                   all(x['l'] < y['l'] for y in fn.walk(outer['body']) if y['k'] == 'CXXMemberCallExpr' and y.get('callee') == 'adjoint_product')]
+            rel = [t_ for t_ in conj if t_[0] == '<' and ('P', fnorm) == t_[2] and any(('L', p_) in atoms_of(t_[1]) for p_ in pre)]
+            if weak and rel:
+                ok = True       # ||f|| > sqrt(eps) * (norm before the projection) >= 0 is strict: the accepted norm is positive anyway
+            if (ok or weak) and not rel:
+                problems.append('candidate accepted under `%s` alone: a candidate that lies in span(V) up to rounding leaves noise, which the correction passes shrink until its squares underflow '
+                                '(float: 1e-23), and the relative orthogonality test then passes on a vector whose norm has no correct digit -- V^H V = I is lost (0.09 .. 0.9); nothing compares the '
+                                'accepted norm with the norm of the candidate before the projection' % fn.s(g['cond'])[:60])
             if not ok:
                 problems.append('candidate accepted under `%s`: does not imply ||f|| > 0 (a zero vector satisfies a non-strict test), the caller then divides by zero' % fn.s(g['cond']))
             else:
